@@ -318,6 +318,8 @@ def _(m, callee, args):
 
 @model(r'^format$')
 def _(m, callee, args):
+    if args[0][0] == 'fmtargs_str':
+        return RStr(args[0][1].cs)
     _, tmpl, fa = args[0]
     out, i, argi = [], 0, 0
     b = tmpl
